@@ -77,7 +77,7 @@ def main(args):
                "every failing token: missing key, index = length, -, -1, 01, +1, ' 1', 1_0, 1.0, an index followed by LF / CR / NUL, non-ASCII digits, any "
                "token on a scalar or string), each replayed through RefResolver.resolve_fragment and, where the target "
                "is a leaf schema, through validation of {\"$ref\": \"#\"+fragment} in 4 drafts; plus random documents "
-               "and fragments judged by TLC (Trace_C14). Non-trivial: fragment with >= 1 token; distinct by (doc, fragment)."
+               "and fragments judged by TLC (Trace_C14), as are respellings of the universe's fragments (separators percent-encoded, a trailing '+' or non-ASCII digit). Non-trivial: fragment with >= 1 token; distinct by (doc, fragment)."
                % (3 if quick else 5))
     r = tlc.run("mc/MC_C14.tla", cfg="mc/MC_C14_%s.cfg" % args.tier, workers=16, timeout=3000, coverage=True)
     if r.violation:
@@ -129,6 +129,30 @@ def main(args):
 
     n = 3000 if quick else 100000
     recs, real = [], {}
+    # other spellings of the universe's fragments, judged by TLC: separators written percent-encoded ("%2F", "%2f") --
+    # all of them, only the first, only the last; "+" is a plain character (not a space); an index followed by a
+    # non-ASCII digit is no index
+    import copy
+    rid = 10 * n
+    for k, ex in enumerate(r.exports):
+        if "docs" in ex or k % (3 if quick else 1):
+            continue
+        doc = docs[ex["d"] - 1]
+        frag = dec_str(ex["frag"])
+        if "/" not in frag:
+            continue
+        first, last = frag.index("/"), frag.rindex("/")
+        for alt in {frag.replace("/", "%2F"), frag[:first] + "%2f" + frag[first + 1:], frag[:last] + "%2F" + frag[last + 1:],
+                    frag + "+", frag + "\u0660", frag.replace("/", "/+", 1)}:
+            out, v = resolve(js, doc, alt)
+            try:
+                rec = {"id": rid, "doc": enc(doc), "frag": enc_str(alt), "out": out, "v": enc(v) if out == "value" else {"t": "null"}}
+            except Unencodable:
+                continue
+            recs.append(rec)
+            real[rid] = {"document": doc, "fragment": alt, "respelling_of": frag, "observed": {"outcome": out, "value": copy.deepcopy(v)}}
+            ck.count((ex["d"], alt), True)
+            rid += 1
     for i in range(n):
         doc = rand_doc(ck.rng, 3)
         frag = rand_fragment(ck.rng, doc)
